@@ -7,7 +7,7 @@ persist; (R5) deferred physical deletions are registered under the epoch that fi
 Does not decide: the direction/off-by-one of the epoch comparison (value level) beyond R5."""
 import re
 
-from tmpl import site, start_sites, done_sites, suffix, flows_from, pl_fields
+from tmpl import site, start_sites, done_sites, suffix, flows_from, pl_fields, local_defs, operand_places, origin_locals
 
 SEC = 'storage::secondary::'
 START = SEC + 'transaction::SecondaryTransaction::start::{closure#0}'
@@ -117,6 +117,46 @@ def run(ctx):
         ctx.ob(R3, 'find_vacuum·reads-ref_cnt', reads_ref, 'find_vacuum must read VersionManagerInner::ref_cnt')
         ctx.ob(R3, 'find_vacuum·epoch-comparison', bool(cmp_), f'an ordered u64 comparison of epochs must exist ({len(cmp_)} found)')
         ctx.ob(R3, 'find_vacuum·pending-deletions', touches, 'find_vacuum must take its candidates from rowset_deletion_to_apply')
+        # the horizon is the minimum over ALL pins: Iterator::min (or BTreeMap::first_key_value) applied to ref_cnt's keys with no
+        # adaptor in between that could leave a pinned epoch out (filter, skip, take, range, rev+next ...)
+        ALLOWED_CHAIN = re.compile(r'(HashMap|BTreeMap)::<.*>::(keys|iter)$|IntoIterator::into_iter$|Iterator::(copied|cloned|min)$|'
+                                   r'Deref::deref$|DerefMut::deref_mut$|Mutex::<.*>::lock$|first_key_value$')
+        mins = [(g, c) for g in grp for c in g.calls if re.search(r'Iterator::min$|BTreeMap::<.*>::first_key_value$', c.fn or '')]
+        if ctx.anchor(R3, 'find_vacuum:minimum-of-pins', mins):
+            for g, c in mins:
+                chain, todo, seen_l = [], [a['pl']['l'] for a in c.args if a['k'] != 'const'], set()
+                while todo:
+                    l = todo.pop()
+                    if l in seen_l:
+                        continue
+                    seen_l.add(l)
+                    for bb, kind, payload in local_defs(g, l):
+                        if kind == 'call':
+                            chain.append(payload.get('fn') or '?')
+                            todo += [a['pl']['l'] for a in payload.get('args', []) if a['k'] != 'const']
+                        else:
+                            todo += [p['l'] for p in operand_places(payload)]
+                bad = sorted({n for n in chain if not ALLOWED_CHAIN.search(n)})
+                over_ref = any(re.search(r'::(keys|iter|first_key_value)$', n) for n in chain + [c.fn or ''])
+                ctx.ob(R3, 'find_vacuum·horizon=min-over-all-pins', not bad and over_ref,
+                       f'the vacuum horizon must be the smallest of ALL pinned epochs: chain feeding {short_fn(c.fn)}: '
+                       f'{[short_fn(n) for n in chain]}' + (f'; adaptor(s) {[short_fn(n) for n in bad]} can leave a pinned epoch out' if bad else ''),
+                       [site(g, c.bb)],
+                       what='find_vacuum computes its horizon from a subset of the pinned epochs: row-sets a reader still lists are unlinked')
+                # and that minimum is what the epoch comparison sees
+                cmp_bodies = {g2.name for g2, _ in cmp_}
+                users = [x for x in g.calls if any(n in cmp_bodies for n in prog.callee_bodies(x))] if cmp_bodies else []
+                direct = [(g2, i) for g2, i in cmp_ if g2 is g]
+                fed = False
+                for x in users:
+                    for a in x.args:
+                        if a['k'] != 'const' and c.dest['l'] in origin_locals(g, a['pl']['l']):
+                            fed = True
+                if direct and not users:
+                    fed = True
+                ctx.ob(R3, 'find_vacuum·horizon-feeds-comparison', fed,
+                       f'the minimum of the pins must be an operand of the epoch comparison ({len(users)} comparison call(s) examined)',
+                       [site(g, c.bb)])
         for g in grp:
             ctx.functions_analysed.add(g.name)
 
@@ -180,3 +220,7 @@ def _places(body):
         for st in bl['stmts']:
             yield from operand_places(st)
         yield from operand_places(bl['term'])
+
+
+def short_fn(n):
+    return re.sub(r'<[^<>]*>', '', (n or '?')).replace('std::collections::', '').replace('std::iter::', '')
